@@ -160,6 +160,9 @@ func (c *chunkReader) Read(p []byte) (int, error) {
 	}
 	copy(p, c.b[:n])
 	c.b = c.b[n:]
+	if len(c.b) == 0 && c.tape.Next(2) == 1 {
+		return n, io.EOF // a reader may deliver its last bytes together with io.EOF
+	}
 	return n, nil
 }
 
